@@ -42,7 +42,10 @@ int ogg_stream_packetout(ogg_stream_state *os,ogg_packet *op){ int r=ogg_stream_
 int vorbis_synthesis_restart(vorbis_dsp_state *v){ g_restarts++; return 0; }
 #include "vorbisfile.c"
 static int g_fault=0;   /* ghost: an I/O fault was injected (-DFAULTS) */
+static ogg_int64_t g_last_seek=-5; static int g_found_since=1;   /* ghost for the recurrence (lasso) check */
 static int _seek_helper(OggVorbis_File *vf,ogg_int64_t off){ CHECK(off>=0&&off<=vf->end,"seek target inside the file");
+  CHECK(!(off==g_last_seek && !g_found_since),"the page search makes progress: the same offset is never searched twice with no page found in between (the environment is deterministic, so that would repeat forever)");
+  g_last_seek=off; g_found_since=0;
 #ifdef FAULTS
   if(ND_BOOL()){ g_fault=1; return OV_EREAD; }
 #endif
@@ -57,7 +60,7 @@ static ogg_int64_t _get_next_page(OggVorbis_File *vf,ogg_page *og,ogg_int64_t bo
   if(i==NP) return OV_EOF;
   if(boundary>0 && pg_off[i]>=boundary){ vf->offset=boundary; return OV_FALSE; }
   if(boundary==0) return OV_FALSE;
-  cur=i; og->header=env_hdr; og->header_len=27; og->body=env_body; og->body_len=0;
+  g_found_since=1; cur=i; og->header=env_hdr; og->header_len=27; og->body=env_body; og->body_len=0;
   vf->offset=pg_off[i+1]; return pg_off[i]; }
 static ogg_int64_t _get_prev_page(OggVorbis_File *vf,ogg_int64_t begin,ogg_page *og){ ASSUME(0); return 0; }  /* needs a page without a completed packet: not in this table */
 void harness(void){
@@ -70,7 +73,8 @@ void harness(void){
   ogg_int64_t base= tl==0 ? 0 : (h+oth);
   offs[tl]=base; doffs[tl]=base+h; pg_off[0]=doffs[tl];
   for(int i=0;i<NP;i++){ ogg_int64_t len=ND_range(27,4096); pg_off[i+1]=pg_off[i]+len; }
-  offs[tl+1]=pg_off[NP];
+  ogg_int64_t tailgap=ND_range(0,4096);   /* bytes after the link's last page that belong to no page (garbage / padding): the search must terminate there too */
+  offs[tl+1]=pg_off[NP]+tailgap;
   if(tl==0){ doffs[1]=offs[1]+gap; offs[2]=doffs[1]+oth; } else { offs[0]=0; doffs[0]=h; }
   vf.end=offs[2]; vf.offset=ND_range(0,1L<<16); ASSUME(vf.offset<=vf.end);
   ogg_int64_t p0=ND_range(0,1023); pcml[2*tl]=p0;
